@@ -307,7 +307,13 @@ def _disjoin(branches):
             s = dict(s)
             a = s["addr"]
             if isinstance(a, list):
-                s["addr"] = [f"{a[0]}t{bi}"] + list(a[1:])
+                if s["callee"]["k"] == "dist":
+                    # tuple-addressed leaves share the first component across branches ("ta", ...): the
+                    # branches then hold different content below one address component
+                    rt = gfi.DISTS[s["callee"]["name"]][1]
+                    s["addr"] = [f"t{a[0]}"] + [c if rt == "f" else f"{c}_{rt}" for c in a[1:]]
+                else:
+                    s["addr"] = [f"{a[0]}t{bi}"] + list(a[1:])
                 stmts.append(s)
                 continue
             elif s["callee"]["k"] != "dist":
